@@ -6,6 +6,7 @@ fn main() {
         "store" => sv::store::main(&args[2..]),
         "views" => sv::views::main(&args[2..]),
         "streams" => sv::streams::main(&args[2..]),
+        "terms" => sv::terms::main(&args[2..]),
         _ => {
             eprintln!("unknown family {fam}");
             std::process::exit(2);
